@@ -550,7 +550,7 @@ def sup_lines(k):
     for si, recs in enumerate(segs):
         poll = recs[0]
         for a in k.script[poll['passno'] - 1][1]:
-            if a[0] == 'sig':
+            if a[0] == 'sig' and int(a[1]) not in sigq:      # SignalReceiver.receive ignores a signal that is already pending
                 sigq.append(int(a[1]))
         spawns, kills, waits, rpcs, outs = [], [], [], [], []
         seg, nseg = [], 0
